@@ -125,6 +125,10 @@ class SearchDidNotEnd(AssertionError):
     pass
 
 
+class ProtocolBreach(AssertionError):
+    pass
+
+
 def _lm_class():
     if "cls" in _LM_CACHE:
         return _LM_CACHE["cls"]
@@ -153,6 +157,9 @@ def _lm_class():
             assert len(b) == n, "state rows %d != history columns %d" % (len(b), n)
             t = int(idx) if idx.dim() == 0 else None
             idxs = [t] * n if t is not None else idx.tolist()
+            if max(idxs, default=0) > hist.size(0) or min(idxs, default=0) < 0:
+                # SequentialLanguageModel.calc_idx_log_probs: "idx ... values in the range [0, hist.size(0)]"
+                raise ProtocolBreach("model called with idx=%s but the history has only %d rows" % (idx.tolist(), hist.size(0)))
             if self.mode == "state":
                 h = prev["h"].tolist()
                 for i in range(n):
@@ -226,6 +233,35 @@ def _close(a, b):
 
 def _tag(case, i, b):
     return "element %d (id %d) of %s" % (i, b, {k: case[k] for k in ("V", "W", "eos", "fin", "T", "N")})
+
+
+def finite_complete(tab, b, eos, T, limit):
+    """complete sequences (step limit T) the model gives non-zero probability, or None when more than `limit`"""
+    V = tab[1]
+    out = []
+
+    def rec(p, h):
+        if len(p) == T or (eos is not None and p and p[-1] == eos):
+            out.append(tuple(p))
+            return len(out) <= limit
+        r = row(tab, b, h, len(p))
+        return all(rec(p + [v], h * (V + 1) + v + 1) for v in range(V) if r[v] != NEG)
+
+    return out if rec([], 0) else None
+
+
+def usable_paths_end_early(case):
+    """class of KF-C04-2: finish_all_paths set and, for some element, the model supports fewer sequences
+    than the beam is wide and every one of them ends with eos before the step limit (so that only
+    unusable -inf slots are 'unfinished' while steps remain)"""
+    if case["eos"] is None or not case["fin"] or not case.get("sparse") or case["T"] is None:
+        return False
+    tab = _tab(case)
+    for b in set(_bids(case)):
+        f = finite_complete(tab, b, case["eos"], case["T"], case["W"])
+        if f is not None and len(f) < case["W"] and all(p and p[-1] == case["eos"] and len(p) < case["T"] for p in f):
+            return True
+    return False
 
 
 # ---------------------------------------------------------------------------------------------
@@ -330,7 +366,7 @@ def check_complete(case) -> Optional[str]:
         got = _finite(beam)
         gs, ws = set(p for p, _, _ in got), set(p for _, p in want)
         if gs != ws or len(got) != len(want):
-            return "%s: missing %s, unexpected %s (of %d complete sequences)" % (_tag(case, i, bids[i]), sorted(ws - gs)[:4], sorted(gs - ws)[:4], len(want))
+            return "%s: %d finite-score paths for %d complete sequences; missing %s, unexpected %s" % (_tag(case, i, bids[i]), len(got), len(want), sorted(ws - gs)[:4], sorted(gs - ws)[:4])
         for k, ((p, l, s), (c, q)) in enumerate(zip(got, want)):
             if p != q and not _close(s, c):
                 return "%s: rank %d is %s (%.6f), brute force has %s (%.6f)" % (_tag(case, i, bids[i]), k, p, s, q, c)
@@ -379,7 +415,7 @@ def check_stop(case) -> Optional[str]:
             if (s == NEG) != (r == NEG):
                 return "%s: best path %s had ended after %d steps, slot %d score went %s -> %s with one more step" % (_tag(case, i, bids[i]), top, T - 1, k, r, s)
             if s != NEG and (p != q or not _close(s, r)):
-                return "%s: best path %s had ended after %d steps, yet slot %d changed from %s to %s with one more step" % (_tag(case, i, bids[i]), top, T - 1, k, q, p)
+                return "%s: best path %s had ended after %d steps, yet slot %d changed from %s (%.6f) to %s (%.6f) with one more step" % (_tag(case, i, bids[i]), top, T - 1, k, q, r, p, s)
     return None
 
 
@@ -538,6 +574,10 @@ def cases_fwd(ctx, what):
     tier = "quick" if ctx.quick else "thorough"
     key = what if what in NS[tier] else "paths"
     seeds = [1 + 101 * ctx.seed + j for j in range(NSEEDS[tier][what])]
+    if what in ("paths", "score", "order"):
+        yield dict(WITNESS_IDX)
+    if what in ("paths", "score", "order", "batch"):
+        yield dict(WITNESS_WHERE)
     for base in _grid(ctx):
         if what == "complete" and not applies_complete(base):
             continue
@@ -622,6 +662,26 @@ FINDINGS = [
 KNOWN_MATCH = {
     "KF-C04-1": lambda case, msg: case.get("lens") == "short" and case["S"] >= 1 and case["W"] > case["Kp"] * case["V"] and "Sizes of tensors must match" in msg,
 }
+# the smallest inputs on which the unchanged tree fails; enumerated in every tier
+WITNESS_IDX = {"V": 2, "T": 4, "W": 4, "eos": 0, "fin": True, "N": None, "seed": 11, "mode": "state", "sparse": True, "b0": 0}
+WITNESS_WHERE = {"V": 2, "T": 4, "W": 3, "eos": 1, "fin": True, "N": 2, "seed": 25, "mode": "hist", "sparse": True, "b0": 0}
+
+
+def _kf2(case, msg):
+    return ("raised" in msg and ("history has only" in msg or "must match the size of tensor b" in msg)) and usable_paths_end_early(case)
+
+
+for _what in ("paths", "score", "order", "complete", "batch"):
+    _id = "KF-C04-2" + ("" if _what == "paths" else "-" + _what)
+    FINDINGS.append({
+        "id": _id, "property": "C04", "clause": "C04.fwd." + _what,
+        "what": "BeamSearch raises instead of returning when every usable path of an element has ended before the step limit but an unusable (-inf) slot has not: "
+                "the search goes on with a token tensor that no longer grows, so the model is stepped with idx > hist.size(0) (breaching calc_idx_log_probs' contract; "
+                "an LM reading hist[idx-1] raises IndexError) or, with another element already frozen, torch.where gets S+1 vs S rows",
+        "class": "eos set, finish_all_paths=True, language model with zero-probability tokens such that for some batch element fewer sequences than the beam width have "
+                 "non-zero probability and all of them end with eos before max_iters (unusable -inf slots are counted as unfinished paths)",
+        "witness": WITNESS_IDX if _what != "batch" else WITNESS_WHERE})
+    KNOWN_MATCH[_id] = _kf2
 
 FWD = ["_decoding.BeamSearch.forward", "_decoding.BeamSearch._to_width", "_decoding.beam_search_advance"]
 TEXT = {
